@@ -102,6 +102,8 @@ where
     fn call(&mut self, req: Req) -> Self::Future {
         let start = Instant::now();
         self.in_flight.fetch_add(1, Ordering::Relaxed);
+        // Released when the call completes, fails, panics or is dropped.
+        let in_flight = InFlightGuard(Arc::clone(&self.in_flight));
 
         let future = self.inner.call(req);
 
@@ -117,7 +119,6 @@ where
         }
 
         let algorithm = Arc::clone(&self.algorithm);
-        let in_flight = Arc::clone(&self.in_flight);
         let semaphore = Arc::clone(&self.semaphore);
         let current_limit = Arc::clone(&self.current_limit);
 
@@ -127,7 +128,7 @@ where
                 let latency = start.elapsed();
 
                 // Decrement in-flight counter
-                in_flight.fetch_sub(1, Ordering::Relaxed);
+                drop(in_flight);
 
                 match &result {
                     Ok(_) => algorithm.record_success(latency),
@@ -148,6 +149,15 @@ where
                 result.map_err(AdaptiveError::Service)
             }),
         }
+    }
+}
+
+/// Releases one in-flight slot on drop.
+struct InFlightGuard(Arc<AtomicUsize>);
+
+impl Drop for InFlightGuard {
+    fn drop(&mut self) {
+        self.0.fetch_sub(1, Ordering::Relaxed);
     }
 }
 
